@@ -138,9 +138,12 @@ def vec_si(v: Any) -> list[Any]:
     return [si_of(c) for c in comps]
 
 
-def close_vec(got: list[Any], want: list[Any]) -> bool:
+def close_vec(got: list[Any], want: list[Any], extra_scale: Any = 0) -> bool:
     want = [values.mpc(w) for w in want]
-    scale = max([abs(w) for w in want] + [abs(g) for g in got] + [mpmath.mpf(0)])
+    # extra_scale: magnitude of the terms the value was obtained from by subtraction (a difference
+    # that should be zero carries their rounding)
+    scale = max([abs(w) for w in want] + [abs(g) for g in got] + [mpmath.mpf(0), abs(values.mpc(
+        extra_scale))])
     return all(values.close(g, w, 1e-12, max(mpmath.mpf("1e-300"), 1e-12 * scale)) for g, w in zip(
         got, want))
 
@@ -183,11 +186,12 @@ def refused(x: Any) -> bool:
     return isinstance(x, tuple) and len(x) == 2 and x[0] == REFUSED
 
 
-def judge(out: list, key: str, got: Any, want: list[Any], text: Callable[[Any], str]) -> None:
+def judge(out: list, key: str, got: Any, want: list[Any], text: Callable[[Any], str],
+    extra_scale: Any = 0) -> None:
     if refused(got):
         out.append((key, REFUSED))
     else:
-        out.append((key, "" if close_vec(got, want) else text(got)))
+        out.append((key, "" if close_vec(got, want, extra_scale) else text(got)))
 
 
 
@@ -214,6 +218,7 @@ def ampere_cases(mod: Any, chunk: list[tuple]) -> list[tuple[str, str]]:
         cH = [at(c, pt, t) for c in curl(H)]
         dD = [at(sp.diff(c, T), pt, t) for c in D]
         want_j = [a - b for a, b in zip(cH, dD)]
+        mag = max([abs(sp.N(v)) for v in cH + dD] + [0])
         key = f"ampere:H={hd}:D={dd}:spelling{sp_}"
         lH, lD = lib_field(hd, hu, mod.time, sp_), lib_field(dd, du, mod.time, sp_)
         lp, lt = lib_point(pt, t, sp_)
@@ -221,7 +226,7 @@ def ampere_cases(mod: Any, chunk: list[tuple]) -> list[tuple[str, str]]:
             lt)))
         judge(out, key + ":calculate", got, want_j, lambda g:
             f"calculate_conductivity_current_density_at_point = {fmt(g)}, law curl(H) - dD/dt = "
-            f"{N12(want_j)}")
+            f"{N12(want_j)}", mag)
         # the three solved forms of the one equation
         j_vec = attempt(lambda: mod.conductivity_current_density_vector_law(lH, lD))
         if refused(j_vec):
@@ -229,17 +234,17 @@ def ampere_cases(mod: Any, chunk: list[tuple]) -> list[tuple[str, str]]:
             continue
         got = attempt(lambda: vec_si(vector_at_point(j_vec, mod, pt, t)))
         judge(out, key + ":j-form", got, want_j, lambda g:
-            f"conductivity_current_density_vector_law = {fmt(g)}, law gives {N12(want_j)}")
+            f"conductivity_current_density_vector_law = {fmt(g)}, law gives {N12(want_j)}", mag)
         got = attempt(lambda: field_at_point_si(mod.magnetic_intensity_rotor_law(lD, j_vec), mod, pt,
             t))
         judge(out, key + ":rotor(j(H,D))", got, cH, lambda g:
             f"magnetic_intensity_rotor_law(D, j(H, D)) = {fmt(g)} but curl(H) = {N12(cH)}: the "
-            "forms are not mutual inverses")
+            "forms are not mutual inverses", mag)
         got = attempt(lambda: field_at_point_si(mod.electric_induction_time_derivative_law(lH,
             j_vec), mod, pt, t))
         judge(out, key + ":dDdt(j(H,D))", got, dD, lambda g:
             f"electric_induction_time_derivative_law(H, j(H, D)) = {fmt(g)} but dD/dt = {N12(dD)}:"
-            " the forms are not mutual inverses")
+            " the forms are not mutual inverses", mag)
     return out
 
 
